@@ -740,6 +740,10 @@ class Interp(object):
 
     def st_For(self, s, fr):
         it = self.eval(s.iter, fr)
+        if isinstance(it, SObj) and 'iterseq' in self.hooks:
+            r = self.hooks['iterseq'](self, it)        # an object iterated as a symbolic sequence
+            if r is not None:
+                it = r
         if isinstance(it, SSeq):
             n = z3.simplify(it.length)
             if z3.is_int_value(n):
@@ -1087,12 +1091,29 @@ class Interp(object):
 
     def ev_GeneratorExp(self, e, fr):
         # assumption: generator expressions are evaluated eagerly (no side effects in targets)
+        if len(e.generators) == 1 and not e.generators[0].ifs:
+            it = self.eval(e.generators[0].iter, fr)
+            if isinstance(it, SSeq) and not z3.is_int_value(z3.simplify(it.length)):
+                # f(x) for x in <sequence of symbolic length>: the mapped sequence, element by element
+                # (the element expression must be pure; it is evaluated on an arbitrary index)
+                g = e.generators[0]
+
+                def elem(t, it=it, g=g):
+                    f2 = Frame({}, fr.module, fr.func, parent=fr)
+                    self.assign(g.target, it.elem(t), f2)
+                    return self.eval(e.elt, f2)
+                return SSeq(it.length, elem, 'gen')
         return self.ev_ListComp(e, fr)
 
     def ev_SetComp(self, e, fr):
         return set(self.ev_ListComp(e, fr))
 
     def ev_DictComp(self, e, fr):
+        h = self.hooks.get('dictcomp')
+        if h is not None:
+            r = h(self, e, fr)
+            if r is not None:
+                return r
         out = {}
         self._comp(e.generators, fr, lambda f: out.__setitem__(self.eval(e.key, f),
                                                                self.eval(e.value, f)))
@@ -1737,6 +1758,22 @@ def _b_abs(I_, a, k):
 
 def _minmax(ismax):
     def f(I_, a, k):
+        if len(a) == 1 and isinstance(a[0], SSeq) and not z3.is_int_value(z3.simplify(a[0].length)):
+            # max / min of a sequence of symbolic length: a fresh value that bounds every element and
+            # equals one of them (empty sequence: ValueError, or the default)
+            seq = a[0]
+            st = I_.st
+            if not st.branch(seq.length >= 1):
+                if 'default' in k:
+                    return k['default']
+                raise RaiseSig('ValueError')
+            n = next(st.n)
+            m = z3.Int('%s!%d' % ('max' if ismax else 'min', n))
+            t = z3.Int('t!mm%d' % n)
+            et = term(seq.elem(t))
+            st.assume(z3.ForAll([t], z3.Implies(z3.And(0 <= t, t < seq.length), m >= et if ismax else m <= et)))
+            st.assume(z3.Exists([t], z3.And(0 <= t, t < seq.length, m == et)))
+            return Sym(m)
         xs = list(a[0]) if len(a) == 1 else list(a)
         if not xs:
             if 'default' in k:
